@@ -1036,6 +1036,22 @@ func oracleSkipParse(o *vu.Out, msg []byte) {
 			if eh == nil {
 				ehs = a.skip(&ph) // header, then skip the body
 			}
+			// A Skip path never leaves the parser beyond the end of the message, and skipping after
+			// XHeader() may succeed only if the plain SkipX() succeeds on the same record, at the
+			// same offset (the header call validates more, the length arithmetic is the same).
+			if es == nil && dm.VerifParserOff(&ps) > len(msg) {
+				o.Fail("", fmt.Sprintf("SkipX moved the parser to %d, past the end (%d) of %x", dm.VerifParserOff(&ps), len(msg), msg))
+			}
+			if eh == nil && ehs == nil {
+				o.Stat("oracle:header-skip-ok")
+				if ho := dm.VerifParserOff(&ph); ho > len(msg) {
+					o.Fail("", fmt.Sprintf("XHeader+SkipX moved the parser to %d, past the end (%d) of %x", ho, len(msg), msg))
+				} else if es != nil {
+					o.Fail("", fmt.Sprintf("XHeader+SkipX succeeds (offset %d) but SkipX fails (%v) on the same record of %x", ho, es, msg))
+				} else if so := dm.VerifParserOff(&ps); so != ho {
+					o.Fail("", fmt.Sprintf("XHeader+SkipX advances to %d, SkipX to %d on %x", ho, so, msg))
+				}
+			}
 			if ep == dm.ErrSectionDone {
 				if es != dm.ErrSectionDone || eh != dm.ErrSectionDone {
 					o.Fail("", fmt.Sprintf("skip=%v header=%v but parse=ErrSectionDone on %x", es, eh, msg))
